@@ -68,6 +68,8 @@ pub fn is_float_or_none(r: Option<SimpleNumber>) -> bool {
 }
 /// result of a float operation whose IEEE result is `f`: that float when finite, None otherwise
 pub fn finite_or_none(f: f64) -> Option<SimpleNumber> { if f.is_finite() { Some(Float(f)) } else { None } }
+/// the truncated quotient x/y is a finite value inside the i32 range
+pub fn quotient_fits_i32(x: f64, y: f64) -> bool { let q = (x / y).trunc(); q.is_finite() && q >= -2147483648.0 && q <= 2147483647.0 }
 /// float `//`: the quotient truncated toward zero when it is representable as i32, None otherwise
 pub fn ref_float_integer_divide(x: f64, y: f64) -> Option<SimpleNumber> {
     if y == 0.0 { return None; }
